@@ -16,6 +16,7 @@ structure ColSpec where
   coerce : Bool := false
   reportDup : Keep := .first           -- report_duplicates: exclude_first ↦ keep="first" …
   checks : List CheckSpec := []
+  default : Option Val := none         -- `default=`: fill value for nulls (a parsing option)
   deriving Repr, DecidableEq, Inhabited
 
 inductive Strict | no | yes | filter
@@ -28,6 +29,9 @@ structure Schema where
   ordered : Bool := false
   unique : List String := []           -- joint uniqueness (one list); `[]` = not set
   reportDup : Keep := .first
+  coerce : Bool := false               -- parsing options
+  addMissing : Bool := false
+  dropInvalid : Bool := false
   deriving Repr, DecidableEq, Inhabited
 
 inductive Depth | schemaAndData | schemaOnly | dataOnly
